@@ -27,7 +27,7 @@ PATHS = {
     'inner.d["a.b"]': (lambda o: o.inner.d, "a.b", "key"),
     "d['n'].x": (lambda o: o.d["n"], "x", "attr"),
 }
-OPS = ["read", "assign", "delete", "set_target", "del_target"]
+OPS = ["read", "assign", "assign_none", "delete", "set_target", "del_target"]
 ABS = "<absent>"
 
 
@@ -93,6 +93,8 @@ def run_seq(path, passthrough, transform, fallback, deprecated, seq):
                     got = o.a
                 elif op == "assign":
                     o.a = "v%d" % i
+                elif op == "assign_none":
+                    o.a = None
                 elif op == "delete":
                     del o.a
                 elif op == "set_target":
@@ -101,7 +103,7 @@ def run_seq(path, passthrough, transform, fallback, deprecated, seq):
                     t_del(o, path)
             except BaseException as e:      # noqa
                 exc = e
-        if op in ("read", "assign", "delete"):
+        if op in ("read", "assign", "assign_none", "delete"):
             nw = len([x for x in w if issubclass(x.category, DeprecationWarning)])
             if deprecated and nw != 1:
                 return "%s: %d deprecation warnings, expected exactly 1" % (where, nw)
@@ -121,16 +123,23 @@ def run_seq(path, passthrough, transform, fallback, deprecated, seq):
                     return "%s: expected AttributeError, got %r / %r" % (where, got, exc)
             elif exc is not None or got != exp:
                 return "%s: read %r (%r), the model gives %r" % (where, got, exc, exp)
-            elif tgt is ABS and override is ABS and fallback is not MISSING and isinstance(fallback, list) and got is fallback:
-                return "%s: the fallback object itself was handed out (not a fresh copy)" % where
-        elif op == "assign":
+            elif tgt is ABS and (override is ABS or passthrough) and fallback is not MISSING and isinstance(fallback, list):
+                if got is fallback:
+                    return "%s: the fallback object itself was handed out (not a fresh copy)" % where
+                with warnings.catch_warnings():
+                    warnings.simplefilter("ignore")
+                    again = o.a
+                if again is got:
+                    return "%s: two reads with a missing target returned the same fallback object (not a fresh copy each time)" % where
+        elif op in ("assign", "assign_none"):
+            val = None if op == "assign_none" else "v%d" % i
             if exc is not None:
                 return "%s: unexpected %r" % (where, exc)
             if passthrough:
-                if t_get(o, path) != "v%d" % i:
+                if t_get(o, path) != val:
                     return "%s: passthrough assignment did not reach the target (target is %r)" % (where, t_get(o, path))
             else:
-                override = "v%d" % i
+                override = val
                 if t_get(o, path) != tgt:
                     return "%s: a local assignment modified the target: %r -> %r" % (where, tgt, t_get(o, path))
         elif op == "delete":
